@@ -714,7 +714,7 @@ int select(int nfds, fd_set *rd, fd_set *wr, fd_set *ex, struct timeval *tv)
   shim_init(); NEED(select);
   if (!inited) return r_select(nfds, rd, wr, ex, tv);
   if (gatepath && gated_prog && has(gatecls, 's') && gate_connect() == 0) {
-    char line[64]; struct timeval z; int gr;
+    char line[64] = ""; struct timeval z; int gr;
     ev_begin(&e, "select"); ev_int(&e, "T", tv ? (long long) tv->tv_sec : -1);
     ev_fdset(&e, "rd", nfds, rd); ev_fdset(&e, "wr", nfds, wr);
     ev_raw(&e, ",\"ph\":\"enter\"");
@@ -746,11 +746,15 @@ int select(int nfds, fd_set *rd, fd_set *wr, fd_set *ex, struct timeval *tv)
     z.tv_sec = 0; z.tv_usec = 0;
     r = r_select(nfds, rd, wr, ex, &z);
     {
-      int se = errno;
+      int se = errno; const char *sa = strstr(line, "sig=");
       ev_begin(&e, "select"); ev_int(&e, "ret", r); if (r < 0) ev_int(&e, "err", se);
       if (r > 0) { ev_fdset(&e, "rd", nfds, rd); ev_fdset(&e, "wr", nfds, wr); }
+      if (sa) ev_int(&e, "sigafter", atoi(sa + 4));
       ev_raw(&e, ",\"ph\":\"exit\"");
       { int save = logfd; if (!has(trace, 's')) logfd = -1; ev_emit(&e, 1); logfd = save; }
+      /* decision "g sig=N": the signal arrives just AFTER the call has returned (not during the wait, where it would
+         end the call with EINTR): the handler runs while the program is outside select */
+      if (sa) kill(getpid(), atoi(sa + 4));
       errno = se;
     }
     return r;
